@@ -22,6 +22,31 @@ CHECKS = {
             "DESIGN.md 4/C13"),
 }
 
+CHECKS.update({
+    "C01": ("exploration",
+            "exhaustive small-scope enumeration of rule files (all ordered sequences of <=K blocks x preambles, .rules and legacy CSV) x transactions on the real engine; differential + deletion oracles",
+            "Every ordered sequence of <=3 (quick) / <=4 (thorough) distinct rules over a 15-block .rules alphabet x 3 preambles and over an 11-row legacy CSV alphabet is "
+            "written to disk, loaded through the same entry points `tally up` uses and through MerchantEngine.match, and run on 72 transactions. Expected winner = first "
+            "categorising rule whose condition is true (truth taken from the real evaluator on the one-rule file / an independent regex+modifier reader for CSV); "
+            "deleting all false rules must leave the entire observable result unchanged; the Unknown merchant name must equal the name under an empty rule set.",
+            "condition meaning is delegated to C04; alphabet-bounded; caches reset between files (history is C07's)",
+            "DESIGN.md 4/C01"),
+    "C02": ("exploration",
+            "exhaustive small-scope enumeration of rule files in both rule modes x transactions; union oracle for tags and neutrality (delete all tag-only rules) oracle",
+            "Every ordered sequence of <=3/4 rules over a 13-block alphabet (static, mixed-case and dynamic tags; tag-only rules that outrank categorising ones by specificity or "
+            "priority, share their match text, or carry subcategory/merchant) in first_match and most_specific mode, plus legacy CSV rows with pipe tags, on 72 transactions: the tag "
+            "set must equal the union of the resolved tags of all true rules, and removing every category-less rule must not change merchant/category/subcategory.",
+            "dynamic tag values come from the real evaluator on the tag expression alone; tags compared as sets",
+            "DESIGN.md 4/C02"),
+    "C09": ("exploration",
+            "exhaustive enumeration of all subsets x all permutations of <=K rules x transactions in most_specific mode against an AST-derived lexicographic rank key",
+            "Every ordered sequence of <=4 (quick) / <=5 (thorough) distinct rules from a 12-rule alphabet with two exact-tie pairs is evaluated on 18 transactions through "
+            "engine.match, normalize_merchant, and normalize_merchant after the same file was first loaded in first_match mode; category must come from the top-ranked true "
+            "categorising rule (ties to the earlier rule), subcategory from the top-ranked one that sets a subcategory, tags from all true rules.",
+            "rank key read from the AST; alphabet restricted to rules where a textual reading gives the same key (asserted at start-up)",
+            "DESIGN.md 4/C09"),
+})
+
 NOT_YET = {}
 
 PROPS = [json.loads(l)["id"] for l in open(os.path.join(ROOT, "properties.jsonl"))]
